@@ -64,6 +64,13 @@ pub enum Op {
     UpdateSnapshots,
     /// Removes a publisher (and its objects) at the publication server.
     RemovePublisher { publisher: String },
+    /// Registers a publisher that is not a CA of this instance (a remote
+    /// CA's publisher, played by the harness) with a fresh identity.
+    RawPublisher { publisher: String },
+    /// That publisher publishes `name` (or updates it when present).
+    RawPublish { publisher: String, name: String, fill: u8 },
+    /// That publisher withdraws `name`.
+    RawWithdraw { publisher: String, name: String },
     /// From now on a tie between equally-earliest due tasks goes to the task
     /// whose queue name contains `pat` (empty: back to the seeded choice).
     Prefer { pat: String },
@@ -101,6 +108,9 @@ impl Op {
             Op::UpdateSnapshots => "update_snapshots",
             Op::RemovePublisher { .. } => "remove_publisher",
             Op::Prefer { .. } => "prefer",
+            Op::RawPublisher { .. } => "raw_publisher",
+            Op::RawPublish { .. } => "raw_publish",
+            Op::RawWithdraw { .. } => "raw_withdraw",
         }
     }
 }
@@ -327,6 +337,53 @@ fn apply_inner(w: &mut World, op: &Op) -> Result<(), String> {
                 krill::server::mq::Task::UpdateSnapshots,
                 krill::server::mq::now()
             ).map_err(e)
+        }
+        Op::RawPublisher { publisher } => {
+            use rpki::ca::idexchange::{PublisherHandle, PublisherRequest};
+            use rpki::ca::publication::Base64;
+            let handle = PublisherHandle::from_str(publisher)
+                .map_err(|e| e.to_string())?;
+            let idc = k.signer().create_self_signed_id_cert().map_err(
+                |e| e.to_string())?;
+            let req = PublisherRequest::new(
+                Base64::from_content(&idc.to_bytes()), handle, None);
+            k.repo_manager().create_publisher(req, &actor).map(|_| ())
+                .map_err(e)
+        }
+        Op::RawPublish { publisher, name, fill } => {
+            use rpki::ca::idexchange::PublisherHandle;
+            use rpki::ca::publication::{
+                Base64, Publish, PublishDelta, Update,
+            };
+            let handle = PublisherHandle::from_str(publisher)
+                .map_err(|e| e.to_string())?;
+            let det = k.repo_manager().get_publisher_details(handle.clone())
+                .map_err(e)?;
+            let uri = det.base_uri.join(name.as_bytes())
+                .map_err(|e| e.to_string())?;
+            let content = Base64::from_content(&vec![*fill; 24 + *fill as usize]);
+            let mut delta = PublishDelta::empty();
+            match det.current_files.iter().find(|f| f.uri == uri) {
+                Some(f) => delta.add_update(Update::with_hash_tag(
+                    uri, content, f.base64.to_hash())),
+                None => delta.add_publish(Publish::with_hash_tag(uri, content)),
+            }
+            k.repo_manager().publish(&handle, delta, &k).map_err(e)
+        }
+        Op::RawWithdraw { publisher, name } => {
+            use rpki::ca::idexchange::PublisherHandle;
+            use rpki::ca::publication::{PublishDelta, Withdraw};
+            let handle = PublisherHandle::from_str(publisher)
+                .map_err(|e| e.to_string())?;
+            let det = k.repo_manager().get_publisher_details(handle.clone())
+                .map_err(e)?;
+            let uri = det.base_uri.join(name.as_bytes())
+                .map_err(|e| e.to_string())?;
+            let Some(f) = det.current_files.iter().find(|f| f.uri == uri)
+                else { return Err("nothing to withdraw".into()) };
+            let mut delta = PublishDelta::empty();
+            delta.add_withdraw(Withdraw::with_hash_tag(uri, f.base64.to_hash()));
+            k.repo_manager().publish(&handle, delta, &k).map_err(e)
         }
         Op::Prefer { pat } => {
             w.prefer = if pat.is_empty() { None } else { Some(pat.clone()) };
